@@ -384,6 +384,11 @@ def gen_directed(rng):
     if kind in ("reader", "all"):
         actors.append(dict(name="R", prog=reader_prog(g, rng, g.tables, n=1)))
         others.append("R")
+    if newt is not None and rng.random() < 0.4:
+        # a second goroutine registers the same table name: one of the two is told "duplicate", neither may leave a
+        # lock behind
+        actors.append(dict(name="N2", prog=[dict(op="newtable", t=newt)]))
+        others.append("N2")
     gate = rng.choice(GATES[3:])
     sched = ["A"] * steps_to(gate, len(a_tabs))
     rng.shuffle(others)
